@@ -1448,6 +1448,14 @@ func (t *table) gc(now bigtable.Timestamp, done <-chan struct{}, force bool) {
 	// TODO(scottb): could collect batches of rows that need GC with only a read lock, update with write lock.
 
 	i := 0
+	var emptied []keyType // rows left without cells; deleted once the iteration is over
+	defer func() {
+		for _, k := range emptied {
+			if r := t.rows.Get(k); r != nil && len(r.Families) == 0 {
+				t.rows.Delete(k)
+			}
+		}
+	}()
 	t.rows.Ascend(func(r *btpb.Row) bool {
 		changed := false
 		for _, fam := range r.Families {
@@ -1463,6 +1471,9 @@ func (t *table) gc(now bigtable.Timestamp, done <-chan struct{}, force bool) {
 		if changed {
 			r, _ := scrubRow(r, t.cols())
 			t.rows.ReplaceOrInsert(r)
+			if len(r.Families) == 0 {
+				emptied = append(emptied, r.Key)
+			}
 		}
 		i++
 		if i%100 != 0 {
